@@ -33,7 +33,6 @@ import (
 	"time"
 
 	"github.com/edutko/jks-go/keystore"
-	rpm "github.com/jfrog/go-rpm"
 
 	"github.com/edutko/decipher/internal/asn1struct"
 	"github.com/edutko/decipher/internal/file"
@@ -285,20 +284,14 @@ func c08Call(comp string, data []byte, f *os.File) func() Sx {
 			return ObsOk(I(len(k.Entries)))
 		}
 	case "rpm":
-		p, err := rpm.ReadPackageFile(bytes.NewReader(data))
+		// the way the repository reaches go-rpm: RPMFile validates counts and sizes against the
+		// bytes present (rpmCheckIndex, repair of F25) before it calls rpm.ReadPackageFile
+		_, err := file.RPMFile(file.Info{}, data)
 		return func() Sx {
 			if err != nil {
 				return ObsErr()
 			}
-			l := SL{}
-			for _, h := range p.Headers {
-				hl := SL{}
-				for _, ix := range h.Indexes {
-					hl = append(hl, SL{I(ix.Tag), I(ix.Type), I(ix.Offset), I(ix.ItemCount)})
-				}
-				l = append(l, hl)
-			}
-			return ObsOk(l)
+			return ObsOk(SL{})
 		}
 	}
 	return func() Sx { return SL{} }
@@ -590,7 +583,8 @@ func c08Corpus(c *Ctx, add func(comp, tag, name string, data []byte), addBig fun
 			add("inspect", "corpus-F4", "id_rsa1", w)
 		}
 	}
-	// F25: JKS entry length 1.8 GB; RPM integer item count
+	// F25: JKS entry length 1.8 GB (known finding); RPM integer item count (repaired in the
+	// repository: refused by rpmCheckIndex before go-rpm sees it; kept as a regression witness)
 	add("jks", "corpus-F25-keylen", "k.jks", jksWitness())
 	add("inspect", "corpus-F25-keylen", "k.jks", jksWitness())
 	add("rpm", "corpus-F25-int32count", "p.rpm", rpmWitness(0x20000000))
